@@ -1,5 +1,6 @@
 import NTV.Proofs.Lemmas.AlgLaws
 import NTV.Proofs.Lemmas.TableProofs2
+import NTV.Proofs.Lemmas.NormResFinal
 /-! # C14 — arithmetic in ℚ[x]/(f): property theorems about the model `NTV.Alg`
 
 `f : List Int` is the minimal polynomial (`Canon f`: non-zero leading coefficient; `2 ≤ f.length`:
@@ -320,5 +321,89 @@ theorem dedekind_isTable : IsTable [-8, -2, -1, 1] [[1, 0, 0], [0, 1, 0], [0, 1/
 
 example : tinv [[[1, 0, 0], [0, 1, 0], [0, 0, 1]], [[0, 1, 0], [0, -1, 2], [4, 0, 2]],
     [[0, 0, 1], [4, 0, 2], [6, 2, 3]]] [1, 2, 3] = .ok ([-74, -10, 23], 404) := by decide +kernel
+
+end NTV.C14
+
+/-! ## C14 — the norm is the determinant of the multiplication-by-a map: `N(g(θ)) = Res(f, g) / lc(f)^{deg g}`
+
+`G = toPoly (elt basis a)` is the polynomial of degree < n representing `Σ_i a_i ω_i` in the power basis
+(its coefficients are given by `elt_coef`), `F = (toPoly f).map (Int.castRingHom ℚ)` the minimal polynomial
+in ℚ[X] (degree `n`, leading coefficient `lc f ≠ 0`, monic or not). `Polynomial.resultant F G` is Mathlib's
+resultant (determinant of the Sylvester matrix for the degrees `F.natDegree = n` and `G.natDegree`).
+Helper lemmas: `NTV.Proofs.Lemmas.NormResMat` (`det G(M) = Res(χ_M, G)` for a square matrix `M` over a
+field), `NormResAdj` (`N_{k[X]/(F)/k}(G) · lc(F)^{deg G} = Res(F, G)`), `NormResCtx` (`det (regular t a)` is
+the algebra norm, i.e. does not depend on the basis), `NormResFinal`. -/
+namespace NTV.C14
+open NTV.Ord NTV.Alg Matrix Polynomial
+open NTV.RowOps (toM Rect ent)
+open NTV.PolyG (Canon coefAt fromRaw toPoly lc)
+
+/-- the representing polynomial has degree < n -/
+theorem elt_degree_lt (basis : QMat) (n : Nat) (hr : Rect n n basis) (a : List Int) :
+    (toPoly (elt basis a)).degree < n := by
+  rw [degree_lt_iff_coeff_zero]
+  intro m hm
+  rw [NTV.PolyG.coeff_toPoly]
+  have := elt_length_le basis a
+  exact NTV.PolyG.getD_of_length_le _ m (by rw [hr.1] at this; omega)
+
+/-- **(3e)** `MultTable::norm` returns `Res(f, g) / lc(f)^{deg g}`, where `g` (degree < n) is the
+polynomial with `g(θ) = Σ a_i ω_i`: with `nm` the returned integer,
+`nm · lc(f)^{deg g} = Res(f, g)` (hypotheses of `trace_norm`) -/
+theorem norm_is_resultant (f : List Int) (basis : QMat) (n : Nat) (hf : Canon f) (hlen : f.length = n + 1)
+    (hn : 1 ≤ n) (hr : Rect n n basis) (hdet : (toM n n basis).det ≠ 0) (t : Table)
+    (ht : IsTable f basis n t) (a : List Int) (ha : a.length = n) :
+    ∃ nm : Int, tnorm t a = .ok nm ∧
+      ((nm : Int) : ℚ) * ((lc f : Int) : ℚ) ^ (toPoly (elt basis a)).natDegree
+        = Polynomial.resultant ((toPoly f).map (Int.castRingHom ℚ)) (toPoly (elt basis a)) := by
+  have S : Setup f basis n := ⟨hf, hlen, hn, hr, hdet⟩
+  refine ⟨_, tnorm_eq t a ht.1 (by omega), ?_⟩
+  have h := S.det_resultant t ht a
+  rw [modulus_leadingCoeff f hf (by intro e; rw [e] at hlen; simp at hlen), modulus_eq_map] at h
+  exact h
+
+/-- **(3e′)** power basis (`basis` = identity, the order ℤ[θ] of a monic `f`, or the lattice
+`1, θ, …, θ^{n−1}` in general): for `g ∈ ℤ[x]` given by its `n` coefficients,
+`norm(g(θ)) · lc(f)^{deg g} = Res(f, g)` over ℤ -/
+theorem norm_is_resultant_power_basis (f : List Int) (n : Nat) (hf : Canon f) (hlen : f.length = n + 1)
+    (hn : 1 ≤ n) (t : Table) (ht : IsTable f (identityQ n) n t) (g : List Int) (hg : g.length = n) :
+    ∃ nm : Int, tnorm t g = .ok nm ∧
+      nm * lc f ^ (toPoly g).natDegree = Polynomial.resultant (toPoly f) (toPoly g) := by
+  obtain ⟨nm, h1, h2⟩ := norm_is_resultant f (identityQ n) n hf hlen hn (identityQ_rect n)
+    (by rw [identityQ_toM]; simp) t ht g hg
+  refine ⟨nm, h1, ?_⟩
+  have hinj : Function.Injective (Int.castRingHom ℚ) := Int.cast_injective
+  rw [toPoly_elt_identityQ n g (le_of_eq hg)] at h2
+  have h3 := resultant_map_map (toPoly f) (toPoly g) (toPoly f).natDegree (toPoly g).natDegree
+    (Int.castRingHom ℚ)
+  rw [natDegree_map_eq_of_injective hinj, natDegree_map_eq_of_injective hinj] at h2
+  rw [h3] at h2
+  apply hinj
+  rw [← h2]
+  simp
+
+/-! ### non-vacuity: `N(2 + 3i) = 13 = Res(x² + 1, 3x + 2)` -/
+
+example : identityQ 2 = [[1, 0], [0, 1]] := by decide +kernel
+
+/-- the hypotheses of `norm_is_resultant_power_basis` are satisfiable (ℤ[i], `g = 2 + 3x`), and the
+theorem computes the resultant -/
+example : Polynomial.resultant (toPoly ([1, 0, 1] : List Int)) (toPoly ([2, 3] : List Int)) = 13 := by
+  obtain ⟨nm, h1, h2⟩ := norm_is_resultant_power_basis [1, 0, 1] 2 (by intro _; simp) rfl (by norm_num)
+    [[[1, 0], [0, 1]], [[0, 1], [-1, 0]]] gauss_isTable [2, 3] rfl
+  have h3 : tnorm [[[1, 0], [0, 1]], [[0, 1], [-1, 0]]] [2, 3] = .ok 13 := by decide +kernel
+  rw [h3] at h1
+  injection h1 with h1
+  subst h1
+  rw [← h2]
+  simp [lc]
+
+/-- the same through the general statement (`G = 2 + 3x ∈ ℚ[x]`) -/
+example : ∃ nm : Int, tnorm [[[1, 0], [0, 1]], [[0, 1], [-1, 0]]] [2, 3] = .ok nm ∧
+    ((nm : Int) : ℚ) * ((lc ([1, 0, 1] : List Int) : Int) : ℚ) ^ (toPoly (elt [[1, 0], [0, 1]] [2, 3])).natDegree
+      = Polynomial.resultant ((toPoly ([1, 0, 1] : List Int)).map (Int.castRingHom ℚ))
+          (toPoly (elt [[1, 0], [0, 1]] [2, 3])) :=
+  norm_is_resultant [1, 0, 1] [[1, 0], [0, 1]] 2 (by intro _; simp) rfl (by norm_num) ⟨rfl, by simp⟩ gauss_det _
+    gauss_isTable [2, 3] rfl
 
 end NTV.C14
